@@ -368,3 +368,39 @@ Qed.
 Lemma fn_norm_spec s :
   (~ In BSL (fn_norm s) /\ forall g, fn_norm s <> g ++ [SEP]) /\ fn_norm (fn_norm s) = fn_norm s.
 Proof. split; [apply fn_norm_normal | apply fn_norm_idem]. Qed.
+
+(* ------------------------------------------------------- operator== / != / - *)
+Lemma fn_eq_spec a b : fn_eq a b = true <-> a = b.
+Proof. apply str_eqb_eq. Qed.
+
+(* operator-: what it does.  It cuts behind the FIRST CHARACTER of the file name that occurs anywhere
+   among base's characters (std::string::find_first_of), not behind an occurrence of base. *)
+Lemma fn_minus_spec a b :
+  ((forall c, In c a -> ~ In c b) -> fn_minus a b = a) /\
+  (forall p c r, a = p ++ c :: r -> In c b -> (forall x, In x p -> ~ In x b) -> fn_minus a b = fn_norm r).
+Proof.
+  unfold fn_minus. split.
+  - intro H. assert (E : after_first_of b a = None).
+    { induction a as [|x a IH]; [reflexivity|]. cbn [after_first_of].
+      destruct (mem x b) eqn:M; [apply mem_In in M; exfalso; apply (H x); [now left | exact M]|].
+      apply IH. intros c I. apply H. now right. }
+    now rewrite E.
+  - intros p c r -> Hc Hp. assert (E : after_first_of b (p ++ c :: r) = Some r).
+    { induction p as [|x p IH]; cbn [app after_first_of].
+      - now rewrite (proj2 (mem_In c b) Hc).
+      - destruct (mem x b) eqn:M; [apply mem_In in M; exfalso; apply (Hp x); [now left | exact M]|].
+        apply IH. intros y I. apply Hp. now right. }
+    now rewrite E.
+Qed.
+
+(* POSSIBLE FINDING (reported, not yet recorded): operator- does not undo operator+.
+   "dir" + "file" = "dir/file", and ("dir/file") - "dir" = "ir/file" (the first character 'd' is in
+   the character set of "dir"); the intent stated in FileName.cpp is "removes the base from a filename" *)
+Lemma fn_minus_not_inverse_of_plus :
+  exists a b, normal a /\ normal b /\ a <> [] /\ b <> [] /\ ~ In SEP b /\ fn_minus (fn_plus a b) a <> b.
+Proof.
+  exists [100; 105; 114], [102; 105; 108; 101].
+  split; [exact (fn_norm_normal [100; 105; 114])|]. split; [exact (fn_norm_normal [102; 105; 108; 101])|].
+  split; [discriminate|]. split; [discriminate|]. split; [|vm_compute; discriminate].
+  intros [E|[E|[E|[E|[]]]]]; discriminate.
+Qed.
